@@ -14,6 +14,9 @@ import (
 
 var apiIntrinsics map[string]intrinsicFn
 
+// API functions that must see maybe-nil pointers unresolved
+var apiKeepsSymbolicNil = map[string]bool{"vNilIf": true, "vEq": true, "vBigOr0": true}
+
 func constName(p *Path, fr *frame, v Value, pos token.Pos) string {
 	s, ok := v.(StrV).Concrete()
 	if !ok {
@@ -349,6 +352,38 @@ func init() {
 		v := p.concInt(fr, t, types.Typ[types.Int], int(sext64(lo.u, 64)), int(sext64(hi.u, 64)), pos, "vConcretize")
 		return BVConst(uint64(v), 64)
 	}
+	A["vProtoSame"] = apiProtoSame
+	// vNilIf(c, p unsafe.Pointer) unsafe.Pointer : p, or nil when c holds - without forking
+	A["vNilIf"] = func(p *Path, fr *frame, fn *ssa.Function, args []Value, pos token.Pos) Value {
+		c := args[0].(*Term)
+		ptr := args[1].(PtrV)
+		if c.c {
+			if c.u != 0 {
+				return PtrV{}
+			}
+			return ptr
+		}
+		if ptr.O == nil {
+			return ptr
+		}
+		nc := c
+		if ptr.Nil != nil {
+			nc = p.tb.Or(ptr.Nil, c)
+		}
+		return PtrV{O: ptr.O, Path: ptr.Path, Nil: nc}
+	}
+	// vBigOr0(x): a fresh *big.Int holding x's value, or 0 when x is nil - without forking on nil-ness
+	A["vBigOr0"] = func(p *Path, fr *frame, fn *ssa.Function, args []Value, pos token.Pos) Value {
+		ptr := args[0].(PtrV)
+		if ptr.O == nil {
+			return p.newBig(IntConst64(0))
+		}
+		val := PtrV{O: ptr.O, Path: ptr.Path}.Load().(BigV).T
+		if ptr.Nil == nil {
+			return p.newBig(val)
+		}
+		return p.newBig(p.tb.Ite(ptr.Nil, IntConst64(0), val))
+	}
 	A["vLastPanic"] = func(p *Path, fr *frame, fn *ssa.Function, args []Value, pos token.Pos) Value {
 		return StrConst(p.lastPanic)
 	}
@@ -410,13 +445,17 @@ func (p *Path) deepEq(a, b Value, depth int) *Term {
 		if !ok {
 			return tFalse
 		}
-		if x.IsNil() || y.IsNil() {
-			return BoolT(x.IsNil() && y.IsNil())
+		xn, yn := nilTerm(x), nilTerm(y)
+		if x.O == nil || y.O == nil {
+			return tb.And(xn, yn)
 		}
-		if ptrEq(x, y) {
-			return tTrue
+		var inner *Term
+		if ptrEq(PtrV{O: x.O, Path: x.Path}, PtrV{O: y.O, Path: y.Path}) {
+			inner = tTrue
+		} else {
+			inner = p.deepEq(PtrV{O: x.O, Path: x.Path}.Load(), PtrV{O: y.O, Path: y.Path}.Load(), depth+1)
 		}
-		return p.deepEq(x.Load(), y.Load(), depth+1)
+		return tb.Or(tb.And(xn, yn), tb.And(tb.And(tb.Not(xn), tb.Not(yn)), inner))
 	case SliceV:
 		y, ok := b.(SliceV)
 		if !ok {
@@ -488,7 +527,7 @@ func (p *Path) formatObs(v Value) string {
 			}
 		}
 		if isBigPtr(a.T) {
-			ptr := a.V.(PtrV)
+			ptr := p.rp(nil, a.V, token.NoPos)
 			if ptr.IsNil() {
 				return "nil"
 			}
@@ -561,6 +600,7 @@ func (p *Path) formatObs(v Value) string {
 		}
 		return "{" + strings.Join(parts, " ") + "}"
 	case PtrV:
+		a = p.rp(nil, a, token.NoPos)
 		if a.IsNil() {
 			return "nil"
 		}
